@@ -2,7 +2,7 @@
 
 use crate::{
     DbcHeader, DbcParser, DbcVersion, Error, Result, Schema, StringBlock,
-    versions::{Wdb2Header, Wdb5Header},
+    versions::{Wdb2Header, Wdb5Header, record_data_offset},
 };
 use memmap2::{Mmap, MmapOptions};
 use std::fs::File;
@@ -83,11 +83,14 @@ impl MmapDbcFile {
 
     /// Get the string block from the memory-mapped file
     pub fn string_block(&self) -> Result<StringBlock> {
+        // The string block follows the records, which follow the version-specific header
+        let string_block_offset = record_data_offset(self.as_slice())
+            + self.header.record_count as u64 * self.header.record_size as u64;
         let mut cursor = Cursor::new(self.as_slice());
-        cursor.seek(SeekFrom::Start(self.header.string_block_offset()))?;
+        cursor.seek(SeekFrom::Start(string_block_offset))?;
         StringBlock::parse(
             &mut cursor,
-            self.header.string_block_offset(),
+            string_block_offset,
             self.header.string_block_size,
         )
     }
